@@ -116,7 +116,7 @@ func main() {
 					o.Id = ""
 				}
 				o.Fact = genFact(g)
-				o.ViaJS = o.Id != "" && g.Intn(5) == 0
+				o.ViaJS = g.Intn(5) == 0 // (without an id the script leaves the first argument out: undefined or null)
 			case k == 7 && g.Intn(3) == 0:
 				// an overwrite that indexed state refuses (a rule whose `when` holds an
 				// unsortable array): what is stored and searchable must not change
@@ -279,6 +279,9 @@ func step(r *rep.Report, locs map[string]*core.Location, m *ref.Loc, run *[]op, 
 			if o.ViaJS {
 				fj, _ := json.Marshal(o.Fact)
 				idj, _ := json.Marshal(o.Id)
+				if o.Id == "" {
+					idj = []byte([]string{"undefined", "null"}[len(*run)%2])
+				}
 				var x interface{}
 				x, err = locs[k].RunJavascript(drv.Ctx(), "Env.AddFact("+string(idj)+", "+string(fj)+")", nil, nil, nil)
 				id = fmt.Sprint(x)
